@@ -215,8 +215,8 @@ Lemma SimOk_with_scope {A} s b b' (f f' : M A) :
   end -> SimOk f f' -> SimOk (with_scope s b f) (with_scope s b' f').
 Proof.
   intros Hb Hf. unfold with_scope. apply SimOk_get_bind; intros c c' H.
-  assert (HS : current_scope c = current_scope c' /\ current_scope_nx c = current_scope_nx c') by (unfold E, core in H; inversion H; auto).
-  destruct HS as [H1 H2]. rewrite H1, H2.
+  assert (HS : current_scope c = current_scope c' /\ current_scope_nx c = current_scope_nx c' /\ next_macro_scope_id c = next_macro_scope_id c') by (unfold E, core in H; inversion H; auto).
+  destruct HS as (H1 & H2 & H3). rewrite H1, H2, H3.
   apply SimOk_bind; [apply SimOk_of_SimM; apply sim_modify; intros; apply core_enter; assumption|intro].
   apply SimOk_bind; [apply SimOk_of_SimM; destruct b, b'; try contradiction; [destruct Hb as [-> _]; apply sim_scope_symbol|apply sim_ret]|intro].
   apply SimOk_finally; [exact Hf|].
@@ -361,8 +361,8 @@ Lemma SimOk_with_scope_pc {A} s b b' (f f' : M A) :
 Proof.
   intros Hl Hr Hf c c' HE a d H. unfold with_scope in *. rewrite <- Hl, <- Hr.
   unfold bind at 1 in H. unfold get at 1 in H. unfold bind at 1. unfold get at 1.
-  assert (HS : current_scope c = current_scope c' /\ current_scope_nx c = current_scope_nx c') by (unfold E, core in HE; inversion HE; auto).
-  destruct HS as [H1 H2]. rewrite <- H1, <- H2.
+  assert (HS : current_scope c = current_scope c' /\ current_scope_nx c = current_scope_nx c' /\ next_macro_scope_id c = next_macro_scope_id c') by (unfold E, core in HE; inversion HE; auto).
+  destruct HS as (H1 & H2 & H3). rewrite <- H1, <- H2, <- H3.
   unfold bind at 1 in H. cbn [modify] in H. unfold bind at 1. cbn [modify].
   assert (HE1 : E (enter_scope s c) (enter_scope s c')) by (apply core_enter; exact HE).
   unfold bind at 1 in H. unfold bind at 1.
@@ -373,8 +373,8 @@ Proof.
   - destruct (Hf x x' HX P v y Fx) as (y' & Fx' & HY). rewrite Fx'.
     match type of H with match ?m y with _ => _ end = _ => destruct (m y) as [w z|ds z|fl] eqn:C1; try discriminate end.
     inversion H; subst.
-    assert (SC : SimM (scope_symbol t_plus (blk_rparen b) ;;; modify (leave_scope (current_scope c) (current_scope_nx c)))
-                      (scope_symbol t_plus (blk_rparen b) ;;; modify (leave_scope (current_scope c) (current_scope_nx c)))).
+    assert (SC : SimM (scope_symbol t_plus (blk_rparen b) ;;; modify (leave_scope (current_scope c) (current_scope_nx c, next_macro_scope_id c)))
+                      (scope_symbol t_plus (blk_rparen b) ;;; modify (leave_scope (current_scope c) (current_scope_nx c, next_macro_scope_id c)))).
     { apply sim_bind; [apply sim_scope_symbol|intro]. apply sim_modify. intros; apply core_leave; assumption. }
     destruct (SimOk_of_SimM _ _ SC y y' HY w d C1) as (z' & C1' & HZ). rewrite C1'. eauto.
   - match type of H with match ?m y with _ => _ end = _ => destruct (m y); discriminate end.
@@ -593,7 +593,10 @@ Proof.
 Qed.
 
 Lemma E_next_pass c c' : E c c' -> E (next_pass c) (next_pass c').
-Proof. intro H. unfold E, core in *. inversion H. unfold next_pass. cbn. congruence. Qed.
+Proof.
+  intro H. unfold E, core in *. inversion H. unfold next_pass. cbn.
+  match goal with HS : segments c = segments c' |- _ => rewrite <- HS end. congruence.
+Qed.
 Lemma E_set_segments c c' s cur : E c c' -> E (set_segments c s cur) (set_segments c' s cur).
 Proof. intro H. unfold E, core in *. inversion H. cbn. congruence. Qed.
 Lemma E_set_undefined c c' u : E c c' -> E (set_undefined c u) (set_undefined c' u).
